@@ -326,3 +326,177 @@ func c08Tables(c *Ctx) {
 	}
 	_ = core.ModPath
 }
+
+// ---- C08.unaltered: conversions pass values through unmodified --------------------------------------
+
+func init() {
+	register(&Rule{Name: "C08.unaltered", Min: 8, Run: c08Unaltered,
+		Doc: "the conversion functions and the write path hand a value on as it is (identity up to integer widening): no sanitising, no canonicalising"})
+	byProp["C08"] = append(byProp["C08"], "C08.unaltered")
+	explain["C08"] += " unaltered: valueToGo returns exactly what the sqlite.Value accessor yields, NewKey stores exactly the case variable (or its integer widening), setContextResult passes exactly the case variable to the Result method, and the key of an INSERT/UPDATE/DELETE/seek reaches NewKey without passing through any repository function — 'a value that cannot be stored is refused, never altered'."
+}
+
+// identityOf strips conversions that keep the value (interface boxing, named-type changes, integer
+// widening) and returns the underlying value.
+func identityOf(v ssa.Value) ssa.Value {
+	for {
+		switch x := v.(type) {
+		case *ssa.MakeInterface:
+			v = x.X
+		case *ssa.ChangeInterface:
+			v = x.X
+		case *ssa.ChangeType:
+			v = x.X
+		case *ssa.Convert:
+			if isInteger(x.X.Type()) && isInteger(x.Type()) {
+				v = x.X
+				continue
+			}
+			return v
+		default:
+			return v
+		}
+	}
+}
+
+func c08Unaltered(c *Ctx) {
+	const rule = "C08.unaltered"
+	v2g := mustFunc(c, "sqlite", "", "valueToGo")
+	scr := mustFunc(c, "sqlite", "", "setContextResult")
+	newKey := mustFunc(c, "", "", "NewKey")
+	if v2g == nil || scr == nil || newKey == nil {
+		return
+	}
+	// valueToGo: each returned value is the accessor call on the parameter itself
+	valP := v2g.Params[0]
+	for _, b := range v2g.Blocks {
+		ret, ok := b.Instrs[len(b.Instrs)-1].(*ssa.Return)
+		if !ok || an.IsNilConst(ret.Results[0]) {
+			continue
+		}
+		x := identityOf(ret.Results[0])
+		good := false
+		label := "?"
+		if cl, ok := x.(*ssa.Call); ok {
+			label = calleeLabel(cl)
+			if rv := an.RecvValue(cl); rv == ssa.Value(valP) {
+				if f := cl.Call.StaticCallee(); f != nil && an.PkgPathOf(f) == "go.riyazali.net/sqlite" {
+					good = true
+				}
+				if cl.Call.IsInvoke() {
+					good = true
+				}
+			}
+		}
+		c.R.Cond(good, rule, fmt.Sprintf("%s: returns value.%s() unmodified", core.FuncName(v2g), label), c.P.Pos(ret.Pos()),
+			"the SQLite value accessor's result is returned as it is", "valueToGo passes the value through another function before storing it (e.g. repairs invalid UTF-8): what is read back is not what was written, instead of the write being refused")
+	}
+	// NewKey: the field gets the case variable itself
+	for _, b := range newKey.Blocks {
+		ci, ok := caseOf(b)
+		if !ok || ci.val == nil {
+			continue
+		}
+		check := func(al *ssa.Alloc, param ssa.Value, where string) {
+			for _, r := range *al.Referrers() {
+				fa, ok := r.(*ssa.FieldAddr)
+				if !ok {
+					continue
+				}
+				fv := an.FieldVar(fa.X.Type(), fa.Field)
+				if fv == nil || !fv.Exported() || fv.Name() == "Type" {
+					continue
+				}
+				for _, rr := range *fa.Referrers() {
+					st, ok := rr.(*ssa.Store)
+					if !ok || st.Addr != ssa.Value(fa) {
+						continue
+					}
+					c.R.Cond(identityOf(st.Val) == param, rule, fmt.Sprintf("%s: case %s stores the value unmodified", where, ci.typ), c.P.Pos(st.Pos()),
+						"field "+fv.Name()+" = the case variable (up to integer widening)", "the value is transformed before it is stored in field "+fv.Name())
+				}
+			}
+		}
+		for _, in := range b.Instrs {
+			switch x := in.(type) {
+			case *ssa.Alloc:
+				if nt := an.NamedOf(x.Type().Underlying().(*types.Pointer).Elem()); nt != nil && nt.Obj().Name() == "SQLiteValue" {
+					check(x, ci.val, core.FuncName(newKey))
+				}
+			case *ssa.Call:
+				cal := x.Call.StaticCallee()
+				if cal == nil || an.PkgPathOf(cal) != core.ModPath || len(cal.Params) != 1 || len(cal.Blocks) == 0 {
+					continue
+				}
+				if identityOf(x.Call.Args[0]) != ci.val {
+					continue
+				}
+				for _, cb := range cal.Blocks {
+					for _, cin := range cb.Instrs {
+						if al, ok := cin.(*ssa.Alloc); ok {
+							if nt := an.NamedOf(al.Type().Underlying().(*types.Pointer).Elem()); nt != nil && nt.Obj().Name() == "SQLiteValue" {
+								check(al, cal.Params[0], core.FuncName(cal))
+							}
+						}
+					}
+				}
+			}
+		}
+	}
+	// setContextResult: Result*(x) gets the case variable itself
+	for _, b := range scr.Blocks {
+		ci, ok := caseOf(b)
+		if !ok || ci.val == nil {
+			continue
+		}
+		for _, in := range b.Instrs {
+			cl, ok := in.(ssa.CallInstruction)
+			if !ok || !strings.HasPrefix(calleeLabel(cl), "Result") {
+				continue
+			}
+			a := cl.Common().Args
+			c.R.Cond(len(a) > 0 && identityOf(a[len(a)-1]) == ci.val, rule, fmt.Sprintf("%s: %s gets the value unmodified", core.FuncName(scr), calleeLabel(cl)), c.P.Pos(cl.Pos()),
+				"the case variable is passed as it is", "the value is transformed before it is handed back to SQLite")
+		}
+	}
+	// keys reach NewKey without passing through a repository function
+	for _, fn := range c.P.RepoFuncs(func(rel string) bool { return rel == "" }) {
+		fname := core.FuncName(fn)
+		if fname == "s3db.toSQLiteValue" {
+			continue
+		}
+		n := 0
+		for _, call := range an.Calls(fn) {
+			if call.Common().StaticCallee() != newKey {
+				continue
+			}
+			n++
+			arg := call.Common().Args[0]
+			var via string
+			// the immediate producers of the key (through boxing and phis): none may be a call of a
+			// repository function
+			var producers func(v ssa.Value, depth int)
+			producers = func(v ssa.Value, depth int) {
+				v = identityOf(v)
+				if depth > 6 {
+					return
+				}
+				switch x := v.(type) {
+				case *ssa.Phi:
+					for _, e := range x.Edges {
+						if e != v {
+							producers(e, depth+1)
+						}
+					}
+				case *ssa.Call:
+					if f := x.Call.StaticCallee(); f != nil && strings.HasPrefix(an.PkgPathOf(f), core.ModPath) {
+						via = core.FuncName(f)
+					}
+				}
+			}
+			producers(arg, 0)
+			c.R.Cond(via == "", rule, fmt.Sprintf("%s: key #%d reaches NewKey unaltered", fname, n), c.P.Pos(call.Pos()),
+				"the key value is the statement's value", "the key passes through "+via+" before it becomes a Key (canonicalised / altered): a REAL 2.0 key would come back as INTEGER 2")
+		}
+	}
+}
